@@ -118,6 +118,7 @@ func runC08(c *Ctx) {
 
 	c.c08CompileEach()
 	c.patternLoopsComplete("E7")
+	c.c08PatternsAreTheCallersOwn()
 	s := &c08State{c: c, eff: c.computeEffects(), E: map[*ssa.Function][]int{}}
 	var members []*ssa.Function
 	for _, f := range c.srcFuncs(fsPkgRel) {
@@ -832,4 +833,73 @@ func (c *Ctx) c08Pure(front *ssa.Function) {
 	walk(front, 0)
 	c.check(bad == "", "E10", fname(front)+"/depends-on-its-arguments-only", c.pos(front.Pos()), "no package-level state between the patterns and their compiled form",
 		"the package-level variable "+bad+" is used on the way from the patterns to their compiled form: the list returned for a set of patterns can depend on earlier calls (a cache keyed by a digest or a concatenation of the patterns gives {\"qx\",\"zv\"} the expressions of {\"qxzv\"}, and lets an invalid set through on a hit)")
+}
+
+// c08PatternsAreTheCallersOwn (E14): "for any tree and any set of exclusion patterns" — the empty set included: with no
+// pattern nothing is named and every entry is processed. A function that takes the caller's patterns hands on those
+// patterns: where a value it passes on can be the parameter, it is the parameter on every path — not a default put in its
+// place when the set is empty (the variant without patterns may pass a documented default of its own; a variant that takes
+// patterns may not decide that none means some).
+func (c *Ctx) c08PatternsAreTheCallersOwn() {
+	c.rule("E14", "a function of package filesystem that takes exclusion patterns hands on the caller's own on every path: no value it passes on is the parameter on one path and something else (a default for the empty set) on another", 15)
+	for _, f := range c.srcFuncs(fsPkgRel) {
+		if f.Parent() != nil || f.Blocks == nil {
+			continue
+		}
+		var own *ssa.Parameter
+		for _, p := range f.Params {
+			if p.Type().String() == "[]string" && strings.Contains(strings.ToLower(p.Name()), "exclusion") {
+				own = p
+			}
+		}
+		if own == nil {
+			continue
+		}
+		c.FuncsSeen[fname(f)] = true
+		bad := ""
+		uses := 0
+		withAnon(f, func(h *ssa.Function) {
+			allInstrs(h, func(in ssa.Instruction) {
+				cc := callCommon(in)
+				if cc == nil {
+					return
+				}
+				if _, isBuiltin := cc.Value.(*ssa.Builtin); isBuiltin {
+					return // append and friends build new lists out of the elements; E6/E7 look at what the compiler does with them
+				}
+				for _, a := range cc.Args {
+					if a.Type().String() != "[]string" {
+						continue
+					}
+					isOwn := func(l ssa.Value) bool {
+						if resolveValue(l) == ssa.Value(own) {
+							return true
+						}
+						fv, ok := l.(*ssa.FreeVar)
+						return ok && fv.Name() == own.Name()
+					}
+					srcs := sources(a, deriveOpts{})
+					hasOwn, other := false, ssa.Value(nil)
+					for _, l := range srcs {
+						if isOwn(l) {
+							hasOwn = true
+						} else {
+							other = l
+						}
+					}
+					if hasOwn {
+						uses++
+						if other != nil {
+							bad = c.ipos(in) + " (also " + c.pos(other.Pos()) + ")"
+						}
+					}
+				}
+			})
+		})
+		if uses == 0 {
+			continue
+		}
+		c.check(bad == "", "E14", fname(f)+"/the-callers-own-patterns", c.pos(f.Pos()), "what is handed on where the caller's patterns may be handed on is the caller's patterns, on every path",
+			"the patterns handed on at "+bad+" are the caller's on one path and something else on another: an empty set of patterns is replaced by a default, so a call with no pattern — which names nothing — leaves out the entries the default names (directories whose name starts with a dot), while every other operation reports them")
+	}
 }
